@@ -32,14 +32,15 @@ def schema_xsd(ns, uri=NS):
             '<xs:element name="root"><xs:complexType><xs:sequence>'
             '<xs:element name="a" maxOccurs="unbounded"><xs:complexType><xs:sequence>'
             '<xs:element name="item" type="xs:int" maxOccurs="unbounded"/></xs:sequence>'
-            '<xs:attribute name="k" type="xs:int"/></xs:complexType></xs:element>'
+            '<xs:attribute name="k" type="xs:int"/></xs:complexType>'
+            '<xs:unique name="UA"><xs:selector xpath="%sitem"/><xs:field xpath="."/></xs:unique></xs:element>'
             '<xs:element name="b" minOccurs="0" maxOccurs="unbounded"><xs:complexType><xs:sequence>'
             '<xs:element name="item" type="xs:date" maxOccurs="unbounded"/><xs:element ref="%sg" minOccurs="0"/>'
             '</xs:sequence></xs:complexType></xs:element>'
             '<xs:element name="c" minOccurs="0"><xs:complexType><xs:sequence>'
             '<xs:element ref="%sh" maxOccurs="unbounded"/><xs:element name="deep" type="%sdeepType" minOccurs="0"/>'
             '</xs:sequence></xs:complexType></xs:element>'
-            '</xs:sequence></xs:complexType></xs:element></xs:schema>' % (tns, p, p, p, p, p))
+            '</xs:sequence></xs:complexType></xs:element></xs:schema>' % (tns, p, p, p, p, p, p))
 
 
 # the declaration tree of the schema as the model sees it (deepType unfolded to a fixed depth)
@@ -71,7 +72,7 @@ def gen_doc(rng, invalid=False):
         return kids
     kids = []
     for _ in range(rng.randint(1, 3)):
-        kids.append(el('a', kids=[el('item', str(rng.randint(0, 99))) for _ in range(rng.randint(1, 3))],
+        kids.append(el('a', kids=[el('item', str(rng.choice([rng.randint(0, 99), rng.randint(0, 2)]))) for _ in range(rng.randint(1, 3))],
                        attrs={'k': '1'} if rng.random() < 0.5 else {}))
     for _ in range(rng.randint(0, 2)):
         ks = [el('item', '2020-0%d-1%d' % (rng.randint(1, 9), rng.randint(0, 9))) for _ in range(rng.randint(1, 2))]
@@ -225,6 +226,7 @@ def subject(case):
                 part = list(s.iter_decode(res, path=p, namespaces=nsmap, validation='lax', converter=conv))
                 r['part'] = [strip_root_xmlns(x) for x in part if not isinstance(x, Exception)]
                 r['part_errors'] = sorted(str(x.reason)[:60] for x in part if isinstance(x, Exception))
+                r['val_errors'] = sorted(str(e.reason)[:60] for e in s.iter_errors(res, path=p, namespaces=nsmap))
                 want = [jsonml_sub(full, b) for b in select_addrs(doc, a, positions)]
                 r['want'] = want
                 sel = select_addrs(doc, a, positions)
@@ -244,6 +246,7 @@ def subject(case):
                 part = list(s.iter_decode(res, path=p, namespaces=nsmap, validation='lax', converter=conv))
                 r['part'] = [strip_root_xmlns(x) for x in part if not isinstance(x, Exception)]
                 r['part_errors'] = sorted(str(x.reason)[:60] for x in part if isinstance(x, Exception))
+                r['val_errors'] = sorted(str(e.reason)[:60] for e in s.iter_errors(res, path=p, namespaces=nsmap))
                 r['want'] = [jsonml_sub(full, b) for b in sibs]
                 r['want_errors'] = sorted(reason for pth, reason in full_errors
                                           if any(pth == path_of(doc, b, ns, True, case['default_ns']) or
@@ -309,9 +312,24 @@ def evaluate(ctx, cases):
                 if r['part'] != r['want']:
                     problems.append('decoding with path=%s gives %s, the full decoding has %s there'
                                     % (r['path'], json.dumps(r['part'])[:120], json.dumps(r['want'])[:120]))
+                if r['positions'] is True:
+                    # a path with positions selects one node: a duplicate needs two, the uniqueness errors of the scope above
+                    # the selection cannot be expected from validating that node alone
+                    for k in ('want_errors', 'val_errors', 'part_errors'):
+                        if r.get(k) is not None:
+                            r[k] = [x for x in r[k] if not ('duplicated value' in x and 'UA' in x)]
+                if r.get('val_errors') is not None and r['val_errors'] != r['want_errors']:
+                    problems.append('iter_errors(path=%s) gives %s, the full run has %s in the selected part'
+                                    % (r['path'], r['val_errors'][:3], r['want_errors'][:3]))
                 if r['part_errors'] != r['want_errors']:
-                    problems.append('errors with path=%s are %s, the full run has %s in the selected part'
-                                    % (r['path'], r['part_errors'][:3], r['want_errors'][:3]))
+                    missing = [x for x in r['want_errors'] if x not in r['part_errors']]
+                    extra = [x for x in r['part_errors'] if x not in r['want_errors']]
+                    if missing and not extra and all('duplicated value' in x and 'UA' in x for x in missing) \
+                            and r.get('val_errors') == r['want_errors']:
+                        ctx.known_finding('F-C20a')     # decoding with a path below the scope element skips its identity constraints
+                    else:
+                        problems.append('errors with path=%s are %s, the full run has %s in the selected part'
+                                        % (r['path'], r['part_errors'][:3], r['want_errors'][:3]))
         for k, v in o['depth'].items():
             ctx.count(('d', xml, k, c['version']), nontrivial=True)
             if isinstance(v, str):
